@@ -388,8 +388,28 @@ Definition amt_lt_amt (a b : amount) : res bool :=
   then do c <- amt_compare a b; Ok (is_lt c)
   else comm_name_lt a b.
 
-(* inside BALANCE < w the loop tests `pair.second >= w`, which boost turns into
-   !(w > pair.second), i.e. value_t::is_greater_than on the INTEGER/AMOUNT cells
+(* balance_t::sorted_amounts (balance.cc:273-283): the non-null entries, stable-sorted by
+   commodity_t::compare_by_commodity - base symbol first, then the whole key; the table has one
+   entry per key, so no two entries compare equal.  (The model has no null amounts.) *)
+Definition comm_key (a : amount) : str := match acomm a with Some c => c | None => [] end.
+
+Definition comm_le (a b : amount) : bool :=
+  match str_compare (base_sym (comm_key a)) (base_sym (comm_key b)) with
+  | Lt => true
+  | Gt => false
+  | Eq => match str_compare (comm_key a) (comm_key b) with Gt => false | _ => true end
+  end.
+
+Fixpoint insert_sorted (a : amount) (l : list amount) : list amount :=
+  match l with
+  | [] => [a]
+  | x :: l' => if comm_le a x then a :: l else x :: insert_sorted a l'
+  end.
+
+Definition sorted_amounts (b : balance) : list amount := fold_right insert_sorted [] b.
+
+(* inside BALANCE < w the loop tests `*amount >= w`, which boost turns into
+   !(w > *amount), i.e. value_t::is_greater_than on the INTEGER/AMOUNT cells
    (no ordering by commodity name there: different commodities are an error) *)
 Definition v_gt_amt (w : value) (x : amount) : res bool :=
   match w with
@@ -398,10 +418,43 @@ Definition v_gt_amt (w : value) (x : amount) : res bool :=
   | _ => Err EBadOp
   end.
 
-Fixpoint bal_all_lt (b : balance) (w : value) : res bool :=
+Fixpoint bal_all_lt (b : list amount) (w : value) : res bool :=
   match b with
   | [] => Ok true
   | x :: b' => do l <- v_gt_amt w x; if l then bal_all_lt b' w else Ok false
+  end.
+
+(* value_t::is_less_than, BALANCE against INTEGER/AMOUNT (value.cc:976-989, as repaired by 55e6d28): the walk is over
+   sorted_amounts - commodity order - and stops at the first entry that decides: an entry not below w answers
+   `false`, an entry of another commodity than a commoditized w raises "different commodities"; `no_amounts`
+   (nothing walked) answers `false` *)
+Definition bal_lt_scalar (b : balance) (w : value) : res bool :=
+  match sorted_amounts b with
+  | [] => Ok false
+  | s => bal_all_lt s w
+  end.
+
+(* inside BALANCE > w (value_t::is_greater_than, value.cc:1123-1136; reached from C++ callers that compare a value with
+   an amount_t or a long, not from the expression operators, which boost routes through is_less_than) the loop tests
+   `*amount <= w` = !(w < *amount): value_t::is_less_than on the INTEGER/AMOUNT cells, where two different
+   commodities are ordered by name *)
+Definition v_lt_amt (w : value) (x : amount) : res bool :=
+  match w with
+  | VInt y => do c <- amt_compare x (amt_of_Z y); Ok (is_gt c)
+  | VAmt a => amt_lt_amt a x
+  | _ => Err EBadOp
+  end.
+
+Fixpoint bal_all_gt (b : list amount) (w : value) : res bool :=
+  match b with
+  | [] => Ok true
+  | x :: b' => do l <- v_lt_amt w x; if l then bal_all_gt b' w else Ok false
+  end.
+
+Definition bal_gt_scalar (b : balance) (w : value) : res bool :=
+  match sorted_amounts b with
+  | [] => Ok false
+  | s => bal_all_gt s w
   end.
 
 Definition v_ltb (v w : value) : res bool :=
@@ -413,14 +466,18 @@ Definition v_ltb (v w : value) : res bool :=
   | VAmt a, VInt y => do c <- amt_compare a (amt_of_Z y); Ok (is_lt c)
   | VAmt a, VAmt b => amt_lt_amt a b
   | VAmt a, VBal c => do b <- bal_to_amount c; do k <- amt_compare b a; Ok (is_gt k)
-  | VBal b, VInt _ | VBal b, VAmt _ =>
-      match b with
-      | [] => Ok false
-      | _ => bal_all_lt b w
-      end
+  | VBal b, VInt _ | VBal b, VAmt _ => bal_lt_scalar b w
   | VBal b, VBal c => do x <- bal_to_amount c; do y <- bal_to_amount b;
                       do k <- amt_compare x y; Ok (is_gt k)
   | _, _ => Err EBadOp
+  end.
+
+(* report.cc top_amount (as repaired by /repo 195dbe5, finding F191): the first amount of a balance in commodity
+   order, the value itself where there is none (and for the other modelled types; sequences are not modelled) *)
+Definition top_amount (v : value) : value :=
+  match v with
+  | VBal b => match sorted_amounts b with [] => v | x :: _ => VAmt x end
+  | _ => v
   end.
 
 (* ------------------------------------------- expression trees over these cells *)
